@@ -166,4 +166,110 @@ CHECKS.update({
             'design_ref': 'DESIGN.md 5, C20'},
 })
 
+_FS_NOTE = ('node-side modules run on a real scratch directory (real kernel '
+            'semantics for symlink / rename / unlink, listing order sorted by '
+            'the harness); module-level collaborators that leave the process '
+            '(supervisor, iptables, newnet, DNS, REST) are recorders.')
+
+CHECKS.update({
+    'C12': {'text': 'EventMgr._synchronize / _cache run against an in-memory '
+                    'ZooKeeper fake and a real cache directory from a '
+                    'symbolic pre-state (per instance: expected / placement '
+                    'znode / manifest znode / cache file present; placement '
+                    'ctime and cache st_ctime solver variables; '
+                    'check_existing), with a fault (OSError or process stop) '
+                    'before call k of fs.write_safe, k a solver variable, and '
+                    'a reader placed at the instant of the rename.',
+            'note': _FS_NOTE + ' os.stat of cache files reports a symbolic '
+                    'st_ctime; YAML serialisation runs for real on concrete '
+                    'manifests.',
+            'technique': TECH_SYMX + '; symbolic fault index',
+            'design_ref': 'DESIGN.md 5, C12'},
+    'C13': {'text': 'One inductive step of the AppCfgMgr link state machine '
+                    'from a symbolic link table (cache generation, two '
+                    'container generations with finish markers, running link, '
+                    'cleanup links under both naming conventions) under a '
+                    'reachability invariant: created / deleted / re-created '
+                    'cache entry, ready flips, restart + first sync, '
+                    'container finishing on its own, cleanup completing. '
+                    'Four genuine defects of _synchronize with two '
+                    'generations of one instance are listed known findings.',
+            'note': _FS_NOTE + ' app_cfg.configure is a stub that creates the '
+                    'container directory under the real unique name; '
+                    'appcfg.os.stat reports a controlled ctime / inode per '
+                    'cache generation.',
+            'technique': TECH_SYMX + '; one inductive step from a symbolic '
+                         'link table', 'design_ref': 'DESIGN.md 5, C13'},
+    'C14': {'text': 'One inductive step from a symbolic link table (every IP '
+                    'of the network / rule / spec: free, owned by o1, o2 or a '
+                    'dead owner) for VipMgr.alloc / free / garbage_collect, '
+                    'RuleMgr.create_rule / unlink_rule / garbage_collect, '
+                    'EndpointsMgr.create_spec / unlink_spec / unlink_all / '
+                    'garbage_collect with symbolically chosen caller and '
+                    'argument; the resulting directory is compared with the '
+                    'expected table.',
+            'note': _FS_NOTE, 'technique': TECH_SYMX + '; one inductive step',
+            'design_ref': 'DESIGN.md 5, C14'},
+    'C15': {'text': 'Round trip / injectivity of the encodings on the real '
+                    'functions: every app and server trace event class '
+                    '(fields over alphabets containing the separators), '
+                    'container unique names (proid / app words with . - _, '
+                    'ids, padding), pairs of distinct instances; rule-file '
+                    'names by regular-language lemmas generated from the '
+                    'compiled regexes and templates of the module (SMTQ), '
+                    'base-62 ids by an AST-to-z3 translation of to_base_n / '
+                    'from_base_n; LDAP entries by SYMX. See DESIGN.md for '
+                    'which parts are in the quick tier.',
+            'note': 'strings are words over small alphabets chosen by the '
+                    'solver (a symbolic int or str inside str.format is '
+                    'realised value by value); the ZooKeeper payload codec '
+                    '(json / yaml C code) is not claimed.',
+            'technique': TECH_SYMX + ' + SMT lemmas generated from the module '
+                         'source (z3 regex / Int)',
+            'design_ref': 'DESIGN.md 5, C15'},
+    'C16': {'text': '_run._unshare_network and _finish._cleanup_network with '
+                    'the real RuleMgr / EndpointsMgr on a scratch tree and a '
+                    'set-based IP-set recorder: container A has a symbolic '
+                    'manifest shape (0-2 endpoints tcp/udp, infra or not, '
+                    'port equal to real_port or not, 0-2/0-1 ephemeral ports, '
+                    '0-3 passthrough hosts incl. two names for one IP, vring), '
+                    'container B is fixed and overlaps A (same or other '
+                    'instance); four start/finish interleavings incl. a '
+                    'repeated finish: final host state equals the initial one '
+                    'and no finish removes an entry of the other container.',
+            'note': _FS_NOTE + ' DNS is a fixed map; the firewall plugin is '
+                    'absent; ports come from a pool (integers inside compared '
+                    'names cannot stay symbolic).',
+            'technique': TECH_SYMX, 'design_ref': 'DESIGN.md 5, C16'},
+    'C17': {'text': 'Two PresenceResourceService instances (two sessions, two '
+                    'hosts) on one in-memory ZooKeeper: every request '
+                    'sequence of length <= 3 over create / delete of two '
+                    'containers of one instance on either node (enumerated '
+                    'across processes) with an adversary that may expire the '
+                    'other session before any ZooKeeper call (solver '
+                    'booleans): no set / delete on a node owned by another '
+                    'session, created nodes are own ephemerals, nodes of the '
+                    'newer container survive the clean-up of the older one; '
+                    'EndpointPresence.unregister_* and trace _unschedule on '
+                    'symbolic node states.',
+            'note': 'memzk (lib/memzk.py) stands for kazoo: ephemeral owners, '
+                    'ticks, sequence nodes, watches recorded; kazoo threading '
+                    'is outside the claim.',
+            'technique': TECH_SYMX + '; adversarial schedule as solver '
+                         'booleans', 'design_ref': 'DESIGN.md 5, C17'},
+    'C18': {'text': 'cleanup_trace / cleanup_finished / history pruning on '
+                    'memzk with real sqlite + zlib on concrete rows: now, '
+                    'finished mtimes and the crash index over ZooKeeper '
+                    'writes are solver variables, batch size, max_count and '
+                    'scheduled membership are choices; every pre-existing '
+                    'event is live or returned by download_batch from a '
+                    'snapshot, nothing scheduled or younger than the expiry '
+                    'is archived, pruning keeps exactly the newest snapshots.',
+            'note': 'memzk as in C17; time.time() in trace.app.zk returns an '
+                    'integer-seconds wrapper so that comparisons with the '
+                    '(integral) event timestamps stay in integers.',
+            'technique': TECH_SYMX + '; symbolic crash index',
+            'design_ref': 'DESIGN.md 5, C18'},
+})
+
 NOT_YET = {}
